@@ -539,6 +539,160 @@ def serde_string_decls():
     return out
 
 
+def int_valid_range_code(d: Decl):
+    """Rust statements computing `vmin`/`vmax: Option<T>` — the ends of the valid set read off the
+    declaration (None = empty set on that side)."""
+    t = d.inner
+    out = '        let mut vmin: Option<%s> = Some(%s::MIN); let mut vmax: Option<%s> = Some(%s::MAX);\n' % (t, t, t, t)
+    for v in d.validators:
+        b = v.bound.ref if v.bound else None
+        if v.kind == 'greater':
+            out += '        { let c: Option<%s> = (%s).checked_add(1); vmin = match (vmin, c) { (Some(a), Some(b)) => Some(if a > b { a } else { b }), _ => None }; }\n' % (t, b)
+        elif v.kind == 'greater_or_equal':
+            out += '        { let b: %s = %s; vmin = vmin.map(|a| if a > b { a } else { b }); }\n' % (t, b)
+        elif v.kind == 'less':
+            out += '        { let c: Option<%s> = (%s).checked_sub(1); vmax = match (vmax, c) { (Some(a), Some(b)) => Some(if a < b { a } else { b }), _ => None }; }\n' % (t, b)
+        elif v.kind == 'less_or_equal':
+            out += '        { let b: %s = %s; vmax = vmax.map(|a| if a < b { a } else { b }); }\n' % (t, b)
+    out += '        kani::assume(vmin.is_some() && vmax.is_some() && vmin.unwrap() <= vmax.unwrap());   // the valid set is non-empty\n'
+    return out
+
+
+def h_arbitrary_int(d: Decl, props):
+    S = concrete_self(d)
+    t = d.inner
+    sz = INT_BITS_OF[t] // 8
+    n = sz + 1
+    body = (sym_setup(d) + (int_valid_range_code(d) if not d.sanitizers else '') +
+            '        let bytes: [u8; %d] = kani::any();\n        let len: usize = kani::any();\n        kani::assume(len <= %d);\n' % (n, n) +
+            '        let mut u = arbitrary::Unstructured::new(&bytes[..len]);\n'
+            '        match <%s as arbitrary::Arbitrary>::arbitrary(&mut u) {\n' % S +
+            '            Ok(v) => { let i = v.into_inner(); assert!(ref_%s::valid(&i), "arbitrary() yields only values the validators accept"); }\n' % d.id +
+            '            Err(_) => {}\n        }\n'
+            '        assert!(len - u.len() <= %d, "consumes at most size_of::<T>() bytes (so longer inputs behave identically)");\n' % sz)
+    return Harness(d, 'Arbitrary::arbitrary', props, body, attrs='#[kani::unwind(%d)]\n    ' % (n + 2),
+                   clause='forall byte strings: arbitrary(u) is Err or Ok(v) with v valid; no panic; reads <= size_of::<T>() bytes')
+
+
+def h_arbitrary_int_surjective(d: Decl, props):
+    """C14: forall valid target exists bytes: arbitrary(bytes) == target. Skolem witness: the big-endian
+    bytes of (target - min_valid) over as many bytes as int_in_range consumes for the range width."""
+    S = concrete_self(d)
+    t = d.inner
+    bits_n = INT_BITS_OF[t]
+    sz = bits_n // 8
+    U = 'u%d' % bits_n if t not in ('usize', 'isize') else 'usize'
+    body = (sym_setup(d) + int_valid_range_code(d) +
+            '        let (vmin, vmax) = (vmin.unwrap(), vmax.unwrap());\n'
+            '        let target: %s = kani::any();\n        kani::assume(ref_%s::valid(&target));\n' % (t, d.id) +
+            '        let delta: %s = (vmax as %s).wrapping_sub(vmin as %s);\n' % (U, U, U) +
+            '        let offset: %s = (target as %s).wrapping_sub(vmin as %s);\n' % (U, U, U) +
+            '        let mut k: usize = 0;\n'
+            '        while k < %d && (delta >> ((k * 8) as u32)) > 0 { k += 1; }\n' % sz +
+            '        let mut bytes = [0u8; %d];\n' % sz +
+            '        let mut i: usize = 0;\n'
+            '        while i < k { bytes[i] = (offset >> (((k - 1 - i) * 8) as u32)) as u8; i += 1; }\n'
+            '        let mut u = arbitrary::Unstructured::new(&bytes[..k]);\n'
+            '        match <%s as arbitrary::Arbitrary>::arbitrary(&mut u) {\n' % S +
+            '            Ok(v) => assert!(v.into_inner() == target, "every valid value is produced by some byte input"),\n'
+            '            Err(_) => assert!(false, "the witness bytes must produce the target"),\n        }\n')
+    return Harness(d, 'Arbitrary surjective', props, body, attrs='#[kani::unwind(%d)]\n    ' % (sz + 3),
+                   clause='forall valid target: arbitrary(BE bytes of (target - min_valid)) == Ok(target)  (range of the generator == valid set)')
+
+
+INT_BITS_OF = {'u8': 8, 'u16': 16, 'u32': 32, 'u64': 64, 'u128': 128, 'usize': 64, 'i8': 8, 'i16': 16, 'i32': 32, 'i64': 64, 'i128': 128, 'isize': 64}
+
+
+def h_arbitrary_float(d: Decl, props, nbytes=None, unwind=None, assume_bounds=None, tag=''):
+    S = concrete_self(d)
+    t = d.inner
+    sz = 4 if t == 'f32' else 8
+    n = nbytes or (2 * sz + 1)
+    pre = sym_setup(d)
+    if assume_bounds:
+        pre += '        kani::assume(%s);\n' % assume_bounds
+    body = (pre +
+            '        let bytes: [u8; %d] = kani::any();\n        let len: usize = kani::any();\n        kani::assume(len <= %d);\n' % (n, n) +
+            '        let mut u = arbitrary::Unstructured::new(&bytes[..len]);\n'
+            '        match <%s as arbitrary::Arbitrary>::arbitrary(&mut u) {\n' % S +
+            '            Ok(v) => { let i = v.into_inner(); assert!(ref_%s::valid(&i), "arbitrary() yields only values the validators accept"); }\n' % d.id +
+            '            Err(_) => {}\n        }\n')
+    return Harness(d, 'Arbitrary::arbitrary' + tag, props, body, attrs='#[kani::unwind(%d)]\n    ' % (unwind or (n + 3)),
+                   clause='forall byte strings: arbitrary(u) terminates, is Err or Ok(v) with v valid; no panic')
+
+
+def arbitrary_int_decls(tier='quick'):
+    out = []
+    types = INT_TYPES if tier == 'thorough' else ['u8', 'i8', 'i16', 'u32', 'i32', 'i64', 'usize']
+    for t in types:
+        T = t.upper()
+        der = ['Debug', 'Arbitrary']
+        for k in ('greater', 'greater_or_equal'):
+            b, n = aux.sym_bound('lo', t)
+            out.append(mk('arb_%s_%s_sym' % (t, k), 'int', t, validators=[Validator(k, b)], aux=[n], derives=der))
+        for k in ('less', 'less_or_equal'):
+            b, n = aux.sym_bound('hi', t)
+            out.append(mk('arb_%s_%s_sym' % (t, k), 'int', t, validators=[Validator(k, b)], aux=[n], derives=der))
+        for lo in ('greater', 'greater_or_equal'):
+            for up in ('less', 'less_or_equal'):
+                bl, n1 = aux.sym_bound('lo', t)
+                bu, n2 = aux.sym_bound('hi', t)
+                out.append(mk('arb_%s_%s_%s_sym' % (t, lo, up), 'int', t, validators=[Validator(lo, bl), Validator(up, bu)], aux=[n1, n2], derives=der))
+        out.append(mk('arb_%s_nov' % t, 'int', t, derives=der))
+        out.append(mk('arb_%s_lit_narrow' % t, 'int', t, validators=[Validator('greater', aux.lit_bound(3, t)), Validator('less_or_equal', aux.lit_bound(7, t))], derives=der))
+        out.append(mk('arb_%s_lit_minmax' % t, 'int', t, validators=[Validator('greater_or_equal', Bound('%s::MIN' % t, '', '%s::MIN' % t)), Validator('less_or_equal', Bound('%s::MAX' % t, '', '%s::MAX' % t))], derives=der))
+        # expression-valued bounds: shift / arithmetic (the generator adds +1 / -1 to the spliced expression)
+        one = 'ONE_%s' % T
+        out.append(mk('arb_%s_expr_shift_less' % t, 'int', t, validators=[Validator('less', Bound('%s << 3' % one, '', '(%s << 3)' % one))], aux=[one], derives=der))
+        out.append(mk('arb_%s_expr_shift_greater' % t, 'int', t, validators=[Validator('greater', Bound('%s << 3' % one, '', '(%s << 3)' % one)), Validator('less', Bound('%s << 5' % one, '', '(%s << 5)' % one))], aux=[one], derives=der))
+        out.append(mk('arb_%s_expr_arith' % t, 'int', t, validators=[Validator('greater', Bound('%s * 4 - 2' % one, '', '(%s * 4 - 2)' % one)), Validator('less', Bound('%s + 8' % one, '', '(%s + 8)' % one))], aux=[one], derives=der))
+        # custom sanitizer with validation (accepted by the macro for integers)
+        s3, n3 = aux.custom('san3', t)
+        dd = mk('arb_%s_san3_le12' % t, 'int', t, sanitizers=[Sanitizer('with', s3)], validators=[Validator('less_or_equal', aux.lit_bound(12, t))], aux=[n3], derives=der)
+        dd.expect_reject = True   # rejected at compile time since fix f2b529d; if accepted again, the harness decides
+        out.append(dd)
+        s, n5 = aux.custom('san', t)
+        out.append(mk('arb_%s_san_nov' % t, 'int', t, sanitizers=[Sanitizer('with', s)], aux=[n5], derives=der))
+    for d in out:
+        d.verus = False
+        d.kani = True
+    return out
+
+
+def arbitrary_float_decls(tier='quick'):
+    out = []
+    der = ['Debug', 'Arbitrary']
+    for t in FLOAT_TYPES:
+        fin = Validator('finite')
+
+        def lit(v):
+            return Bound(v, '', '(%s as %s)' % (v, t))
+        out.append(mk('arbf_%s_nov' % t, 'float', t, derives=der))
+        out.append(mk('arbf_%s_finite' % t, 'float', t, validators=[fin], derives=der))
+        shapes = [('ge0', [('greater_or_equal', '0.0')]), ('gt0', [('greater', '0.0')]), ('le0', [('less_or_equal', '0.0')]), ('lt0', [('less', '0.0')]),
+                  ('ge0_le1', [('greater_or_equal', '0.0'), ('less_or_equal', '1.0')]), ('gt0_lt1', [('greater', '0.0'), ('less', '1.0')]),
+                  ('ge0_lt1', [('greater_or_equal', '0.0'), ('less', '1.0')]), ('gt0_le1', [('greater', '0.0'), ('less_or_equal', '1.0')]),
+                  ('gem5_le5', [('greater_or_equal', '-5.0'), ('less_or_equal', '5.0')]), ('gtm5_lt5', [('greater', '-5.0'), ('less', '5.0')]),
+                  ('gt10', [('greater', '10.0')]), ('lt100', [('less', '100.0')]), ('gt100_lt200', [('greater', '100.0'), ('less', '200.0')]),
+                  ('ge1e30_le2e30', [('greater_or_equal', '1e30'), ('less_or_equal', '2e30')]), ('gt1e30', [('greater', '1e30')])]
+        for tag, vs in shapes:
+            vals = [Validator(k, lit(b)) for k, b in vs]
+            out.append(mk('arbf_%s_%s' % (t, tag), 'float', t, validators=vals, derives=der))
+            out.append(mk('arbf_%s_fin_%s' % (t, tag), 'float', t, validators=[fin] + vals, derives=der))
+        # symbolic bounds
+        for lo in ('greater', 'greater_or_equal'):
+            for up in ('less', 'less_or_equal'):
+                bl, n1 = aux.sym_bound('lo', t)
+                bu, n2 = aux.sym_bound('hi', t)
+                out.append(mk('arbf_%s_%s_%s_sym' % (t, lo, up), 'float', t, validators=[Validator(lo, bl), Validator(up, bu)], aux=[n1, n2], derives=der))
+        s, n5 = aux.custom('san', t)
+        out.append(mk('arbf_%s_san_nov' % t, 'float', t, sanitizers=[Sanitizer('with', s)], aux=[n5], derives=der))
+    for d in out:
+        d.verus = False
+        d.kani = True
+    return out
+
+
 # ------------------------------------------------------------------------------ crate + run
 def crate_text(decls, harnesses, extra_items='', features=()):
     names = []
@@ -832,6 +986,22 @@ def harnesses_for(prop, tier, seed):
             else:
                 hs.append(h_serialize(d, [prop], concrete=('" ab "', 'ab'), bounded=B))
         decls = decls + sdecls
+    elif prop == 'C09':
+        di = arbitrary_int_decls(tier)
+        df = arbitrary_float_decls(tier)
+        for d in di:
+            hs.append(h_arbitrary_int(d, [prop]))
+        for d in df:
+            t = d.inner
+            if 'sym' in d.id:
+                hs.append(h_arbitrary_float(d, [prop], assume_bounds='sym_lo_%s().is_finite() && sym_hi_%s().is_finite() && { let w: %s = kani::any(); !w.is_nan() && ref_%s::valid(&w) }' % (t, t, t, d.id), tag='(any finite bounds, non-empty valid set)'))
+            else:
+                hs.append(h_arbitrary_float(d, [prop]))
+        decls = di + df
+    elif prop == 'C14':
+        decls = [d for d in arbitrary_int_decls(tier) if not d.sanitizers]
+        for d in decls:
+            hs.append(h_arbitrary_int_surjective(d, [prop]))
     elif prop == 'C11':
         from .kani_serde import serde_items_expanded
         decls = float_decls(tier)
@@ -928,6 +1098,8 @@ def prefilter(out, prop, decls, hs):
         out.extra['kani_side_rejected_declarations'] = {i: {'why': rejected[i], 'attr': [d for d in decls if d.id == i][0].attr_text()} for i in rejected}
         if prop != 'C02':
             for i in rejected:
+                if [d for d in decls if d.id == i][0].expect_reject:
+                    continue
                 out.undecided.append('%s: declaration no longer accepted (%s)' % (i, rejected[i][:100]))
     by_id = {d.id: d for d in decls}
     if prop in ('C02', 'C07', 'C01'):
